@@ -9,6 +9,8 @@ NOTESTS=0; PAT=""
 for a in "$@"; do case "$a" in --no-tests) NOTESTS=1;; *) PAT="$a";; esac; done
 if [ -n "$(git -C /repo status --porcelain --untracked-files=no)" ]; then echo "refusing: /repo has uncommitted changes"; exit 2; fi
 pass=0; fail=0
+# evidence files describe the UNCHANGED tree: keep them
+rm -rf /verif/mc/target/evidence.keep; cp -r /verif/evidence /verif/mc/target/evidence.keep
 for p in mutants/*.patch seeded/*/patch.diff; do
   [ -f "$p" ] || continue
   case "$p" in *"$PAT"*) ;; *) continue;; esac
@@ -28,5 +30,6 @@ for p in mutants/*.patch seeded/*/patch.diff; do
   echo "$line"
   case "$line" in *MISSED*|*tests=FAIL*) fail=$((fail+1));; *) pass=$((pass+1));; esac
 done
+rm -rf /verif/evidence; cp -r /verif/mc/target/evidence.keep /verif/evidence
 echo "selftest: $pass ok, $fail not ok"
 [ $fail -eq 0 ]
